@@ -1,6 +1,6 @@
 ---------------------------- MODULE TokenEvents ----------------------------
 (* Extension check XWALK, part 2: the SAX-style EVENT STREAM of the tokenizers (oj.Tokenize, TokenizeString, *)
-(* TokenizeLoad, sen.Tokenize*) with an oj.TokenHandler, and the document stream of the callback parsers.    *)
+(* TokenizeLoad, sen.Tokenize...) with an oj.TokenHandler, and the document stream of the callback parsers.  *)
 (* C03 compares the VALUE a builder handler assembles from the callbacks; this module specifies the stream   *)
 (* itself.  Documented (oj/tokenhandler.go): Null / Bool / String "when a JSON null / true or false / string *)
 (* is encountered", ObjectStart/End and ArrayStart/End at the brackets, Key "when a JSON object key is       *)
@@ -51,14 +51,15 @@ Leaf == /\ CanValue(stk) /\ stk' = ValueDone(stk) /\ ndocs' = ndocs + (IF stk = 
 Pop(c) == /\ TopF(stk) = c                                                             \* "V" on top = a key without its value
           /\ stk' = ValueDone(SubSeq(stk, 1, Len(stk) - 1)) /\ ndocs' = ndocs + (IF Len(stk) = 1 THEN 1 ELSE 0)
 Doc == /\ stk = <<>> /\ ndocs' = ndocs + 1 /\ UNCHANGED stk                            \* a whole document handed to a callback
-\* the same machine as a pure step function over event kinds (used by the laws of the design check); "bad" = rejected
-MStepK(s, k) == IF s = "bad" THEN "bad"
-                ELSE CASE k = "[" -> IF CanValue(s) THEN Append(s, "A") ELSE "bad"
-                       [] k = "{" -> IF CanValue(s) THEN Append(s, "O") ELSE "bad"
-                       [] k = "key" -> IF TopF(s) = "O" THEN [s EXCEPT ![Len(s)] = "V"] ELSE "bad"
-                       [] k = "]" -> IF TopF(s) = "A" THEN ValueDone(SubSeq(s, 1, Len(s) - 1)) ELSE "bad"
-                       [] k = "}" -> IF TopF(s) = "O" THEN ValueDone(SubSeq(s, 1, Len(s) - 1)) ELSE "bad"
-                       [] OTHER -> IF CanValue(s) THEN ValueDone(s) ELSE "bad"
+\* the same machine as a pure step function over event kinds (used by the laws of the design check); BadStk = rejected
+BadStk == <<"bad">>
+MStepK(s, k) == IF s = BadStk THEN BadStk
+                ELSE CASE k = "[" -> IF CanValue(s) THEN Append(s, "A") ELSE BadStk
+                       [] k = "{" -> IF CanValue(s) THEN Append(s, "O") ELSE BadStk
+                       [] k = "key" -> IF TopF(s) = "O" THEN [s EXCEPT ![Len(s)] = "V"] ELSE BadStk
+                       [] k = "]" -> IF TopF(s) = "A" THEN ValueDone(SubSeq(s, 1, Len(s) - 1)) ELSE BadStk
+                       [] k = "}" -> IF TopF(s) = "O" THEN ValueDone(SubSeq(s, 1, Len(s) - 1)) ELSE BadStk
+                       [] OTHER -> IF CanValue(s) THEN ValueDone(s) ELSE BadStk
 RunK(ks) == LET F[i \in 0..Len(ks)] == IF i = 0 THEN <<>> ELSE MStepK(F[i - 1], ks[i]) IN F[Len(ks)]
 WellFormed(ks) == RunK(ks) = <<>>
 
@@ -159,4 +160,27 @@ NumShape(lit) == IF lit.huge THEN "huge-exponent"
                  ELSE IF JV!IsZero(lit.dec) THEN "decimal-zero"
                  ELSE IF Mag(lit.dec) > 309 THEN "decimal-beyond-float64"
                  ELSE IF Len(lit.dec.digits) <= 15 /\ Mag(lit.dec) <= 300 /\ Mag(lit.dec) >= -300 THEN "decimal-fits" ELSE "decimal-long-or-tiny"
+\* ------------------------------------------------------------------ 5. source-form values and their rendering (generators)
+\* [t |-> "lit", b |-> bytes of null / true / false / a number]  [t |-> "str", b |-> the bytes between the quotes]
+\* [t |-> "arr", v |-> <<..>>]  [t |-> "obj", k |-> <<bytes between the quotes>>, v |-> <<..>>] (duplicates allowed)
+\* lay: 0 compact, 1 a space after every token, 2 newline + tab after every token and a space before the colon
+Sp(lay) == IF lay = 0 THEN <<>> ELSE IF lay = 1 THEN <<32>> ELSE <<10, 9>>
+Join(ss, sep) == LET F[i \in 0..Len(ss)] == IF i = 0 THEN <<>> ELSE IF i = 1 THEN ss[1] ELSE F[i - 1] \o sep \o ss[i] IN F[Len(ss)]
+RECURSIVE Render(_, _)
+Render(v, lay) ==
+  CASE v.t = "lit" -> v.b
+    [] v.t = "str" -> <<34>> \o v.b \o <<34>>
+    [] v.t = "arr" -> <<91>> \o Sp(lay) \o Join([i \in 1..Len(v.v) |-> Render(v.v[i], lay)], <<44>> \o Sp(lay))
+                      \o (IF v.v = <<>> THEN <<>> ELSE Sp(lay)) \o <<93>>
+    [] v.t = "obj" -> <<123>> \o Sp(lay)
+                      \o Join([i \in 1..Len(v.v) |-> <<34>> \o v.k[i] \o <<34>> \o (IF lay = 2 THEN <<32>> ELSE <<>>) \o <<58>> \o Sp(lay) \o Render(v.v[i], lay)],
+                              <<44>> \o Sp(lay))
+                      \o (IF v.v = <<>> THEN <<>> ELSE Sp(lay)) \o <<125>>
+\* several documents: white space between them, or nothing between two containers when tight
+RenderDocs(ds, lay, tight) ==
+  LET F[i \in 0..Len(ds)] ==
+        IF i = 0 THEN <<>> ELSE IF i = 1 THEN Render(ds[1], lay)
+        ELSE F[i - 1] \o (IF tight /\ ds[i - 1].t \in {"arr", "obj"} /\ ds[i].t \in {"arr", "obj"} THEN <<>> ELSE IF lay = 2 THEN <<10>> ELSE <<32>>)
+             \o Render(ds[i], lay)
+  IN F[Len(ds)]
 =============================================================================
